@@ -279,7 +279,57 @@ func ruleC11R4(w *World, r *Report) {
 		for _, st := range stores[k] {
 			byFn[st.Parent()] = append(byFn[st.Parent()], st)
 		}
+		// deferred closures: `p.depth++; defer func() { p.depth-- }()` — the closure's change is applied at every
+		// return of the function that defers it
+		deferDelta := map[*ssa.Function]int64{}
+		deferred := map[*ssa.Function]bool{}
+		for fn := range byFn {
+			if fn.Parent() == nil {
+				continue
+			}
+			par := fn.Parent()
+			isDeferred := false
+			for _, b := range par.Blocks {
+				for _, in := range b.Instrs {
+					if d, ok := in.(*ssa.Defer); ok {
+						if mc, ok := d.Call.Value.(*ssa.MakeClosure); ok && mc.Fn == ssa.Value(fn) && b == par.Blocks[0] {
+							isDeferred = true
+						}
+					}
+				}
+			}
+			if !isDeferred || len(fn.Blocks) != 1 {
+				continue
+			}
+			total := int64(0)
+			okAll := true
+			for _, st := range byFn[fn] {
+				x, c := plusConst(st.Val)
+				ld, isL := isLoad(x)
+				if !isL {
+					okAll = false
+					break
+				}
+				if lfa, isFA := ld.(*ssa.FieldAddr); !isFA || fieldAddrName(lfa) != k.field {
+					okAll = false
+					break
+				}
+				total += c
+			}
+			if okAll {
+				deferDelta[par] += total
+				deferred[fn] = true
+			}
+		}
+		for fn := range deferDelta {
+			if _, ok := byFn[fn]; !ok {
+				byFn[fn] = nil
+			}
+		}
 		for fn, sts := range byFn {
+			if deferred[fn] {
+				continue
+			}
 			// each store is field = field ± c
 			delta := map[*ssa.Store]int64{}
 			okShape := true
@@ -323,6 +373,9 @@ func ruleC11R4(w *World, r *Report) {
 						}
 					}
 					if ret, ok := in.(*ssa.Return); ok {
+						if d != top {
+							d += deferDelta[fn]
+						}
 						if d != 0 {
 							bad = fmt.Sprintf("%s returns at %s with a net change of %+d", funcName(fn), w.pos(lastPos(ret.Block())), d)
 							if d == top {
